@@ -10,3 +10,12 @@ register('C10', 'proof',
 register('C07', 'proof',
          'Detection predicate is_inactive proved equal to the statement for all states and counters.',
          assumptions=['the local TICK reaches on_tick (Supervisor event loop)'])
+register('C11', 'proof',
+         'Data-structure proof on the real source of ProcessStatus: the object invariant I11 (listed exactly where the last '
+         'report is running-like or a lingering STOPPING, conflict flag iff two listed, displayed state = the synthesis of '
+         'the statement) is proved preserved by every mutator from ANY state satisfying it, together with the whole-view '
+         'transition postconditions (listing transition, other entries untouched, forced-state arbitration, FATAL on '
+         'instance loss). Histories of any length are covered by induction over the invariant.',
+         assumptions=['payload record shapes of contracts/shapes.py REC_KEYS (checked at run time in the thorough tier)',
+                      'floats treated as reals (times are only compared)',
+                      'time.monotonic() is non-decreasing along one execution'])
